@@ -2,6 +2,7 @@ import LicenseExpr.Model.Sexp
 import LicenseExpr.Model.Api
 import LicenseExpr.Model.Spec
 import LicenseExpr.Model.Sched
+import LicenseExpr.Model.World
 /-!
 # Driver — line protocol over the executable model (one request per line, one reply per line)
 -/
@@ -216,6 +217,29 @@ def cachedTrie (st : DState) (table : SX) : DState × Trie TVal :=
       let tr := buildTrie st.cls (decTable table)
       ({ st with cache := some (k, tr) }, tr)
 
+/-- `(construct table)`, `(parse i simple strict validate text)`, `(validate i strict text)` -/
+def decCall (x : SX) : Option Call :=
+  match x.getList with
+  | [.tag "construct", t] => some (.construct (decTable t))
+  | [.tag "parse", i, s, st, v, text] => some (.parse i.getNum s.getBool st.getBool v.getBool text.getStr)
+  | [.tag "validate", i, st, text] => some (.validate i.getNum st.getBool text.getStr)
+  | _ => none
+
+def encAnswer : Answer → SX
+  | .unit => .tag "unit"
+  | .noInstance => .tag "noinstance"
+  | .parsed o => encOutcome o
+  | .validated v => encVOutcome v
+
+def worldRun (c : Cls) : World → List SX → List SX → List SX
+  | _, [], out => out.reverse
+  | w, k :: ks, out =>
+    match decCall k with
+    | none => worldRun c w ks (.tag "badcall" :: out)
+    | some call =>
+      let (w', a) := step c w call
+      worldRun c w' ks (encAnswer a :: out)
+
 def handle (st : DState) (op : String) (args : List SX) : DState × SX :=
   let c := st.cls
   match op, args with
@@ -297,6 +321,8 @@ def handle (st : DState) (op : String) (args : List SX) : DState × SX :=
     let t := (names.getList.foldl (fun (t : Trie Nat) nv => match nv.getList with
       | [n, v] => t.addD c n.getStr v.getNum | _ => t) Trie.empty).makeAutomaton
     (st, encSpec (specC17 c text.getStr (iterSpec c t text.getStr) (toks.getList.map decTokFull)))
+  | "world", [tables, calls] =>
+    (st, .list (worldRun c (tables.getList.map (fun t => ⟨decTable t, none⟩)) calls.getList []))
   | "sched", [proto, n, threads, sched] =>
     let s := if proto.getTag == "old" then SC.runOld n.getNum (sched.getList.map SX.getNum) else SC.run n.getNum (sched.getList.map SX.getNum)
     (st, .list ((List.range threads.getNum).map (fun i => encPC (s.pc i))))
